@@ -1464,8 +1464,12 @@ func (s *SelectStatement) RewriteRegexConditions() {
 			return e
 		}
 
-		// Handle regex-based condition.
-		rhs := be.RHS.(*RegexLiteral) // This must be a regex.
+		// Handle regex-based condition. The parser also accepts an
+		// expression such as `/a/ + 1` on the right; leave that alone.
+		rhs, ok := be.RHS.(*RegexLiteral)
+		if !ok {
+			return e
+		}
 
 		vals, ok := matchExactRegex(rhs.Val.String())
 		if !ok {
